@@ -37,7 +37,19 @@ for d in sorted(glob.glob(os.path.join(ROOT, "seeded", "*"))):
     if m.get("also_caught_by"): r += "; also " + m["also_caught_by"]
     if m.get("note"): r += " — " + m["note"]
     rows.append("| %s | %s | %s | %s |" % (os.path.basename(d), m.get("property"), cell(m.get("summary", ""), 260) + " **Needs:** " + cell(m.get("needs_to_manifest", ""), 200), r))
-seeded = "\n".join(rows)
+import collections
+tot = collections.Counter()
+for d in sorted(glob.glob(os.path.join(ROOT, "seeded", "*"))):
+    mp = os.path.join(d, "meta.json")
+    if not os.path.exists(mp): continue
+    m = json.load(open(mp))
+    tot["kept"] += 1
+    if m.get("detected"): tot["caught"] += 1
+    elif "detected" in m: tot["missed"] += 1
+    if m.get("note", "").startswith("missed"): tot["missed at first, caught after strengthening"] += 1
+dropped = len(glob.glob(os.path.join(ROOT, "seeded_dropped", "*")))
+summary = "**Totals:** %d changes kept (%d more written but dropped: they no longer applied or no longer broke the property after a `fix:` commit — see seeded_dropped/); %d caught by the current checks, %d missed; %d of the caught ones were missed by the check as it stood when the change was written and are caught since the generator / model / oracle was widened for that class of scenario (the note in the last column says what was added).\n\n" % (tot["kept"], dropped, tot["caught"], tot["missed"], tot["missed at first, caught after strengthening"])
+seeded = summary + "\n".join(rows)
 p = os.path.join(ROOT, "DESIGN.md"); s = open(p).read()
 for name, body in (("CLAIMS", claims), ("FINDINGS", findings), ("SEEDED", seeded)):
     s = re.sub(r"(<!-- BEGIN:%s -->\n).*?(<!-- END:%s -->)" % (name, name), lambda m: m.group(1) + body + "\n" + m.group(2), s, flags=re.S)
